@@ -14,6 +14,14 @@ cygwin, sun and sun-color use it — `Tcell.Props.C01.noCornerTrick_db` lists th
   resolved to the screen style), two columns wide for a wide rune, a blank for a wide rune in the last
   column, with the cursor visible at the requested cell, or hidden / parked bottom-right when off-screen.
 
+`hct : c.Plain` = no corner trick **and** the pinned drawCell (`c.guardLocked = false`, see
+`Tcell.currentGuardsLockedNeighbour`).  For the tree repaired by fixes/C13-wide-left-of-locked.patch
+(`guardLocked = true`) a wide rune whose right neighbour is locked is shown as a blank of width 1 — the policy of the
+last column — and drawn again, two columns wide, by the first Show after the neighbour is unlocked: proved on the witness
+history (`Tcell.Props.C13.wide_left_of_locked_kept_repaired`, `unlock_repaints_wide_repaired`), stated as
+`Tcell.Props.C13.DisplaysRepairedCell`, checked by the oracle of engine `draw`; the history theorems below have not
+been carried over to that variant yet.
+
 The theorems are named `…_partial` because two things are not covered by them: (1) the four corner-trick
 entries, (2) Layer B — that the *bytes* rendered for each abstract command drive a byte-level ECMA-48
 terminal (`Tcell.Spec.Ecma48`) the way `ATerm.apply` says; that layer is validated on every run by the
@@ -31,7 +39,7 @@ variable {c : DrawCfg}
 display since it was last completely repainted (`trusted`), or the window size changed and this Show notices it,
 then after Show every visited unlocked cell is clean and displayed as last set, and the cursor is where it
 should be. -/
-theorem show_faithful_partial (hrw : RwOk c.rw) (hct : c.cornerTrick = false) (w h : Int) (ops : List ScrOp)
+theorem show_faithful_partial (hrw : RwOk c.rw) (hct : c.Plain) (w h : Int) (ops : List ScrOp)
     (hv : ∀ op ∈ ops, op.Valid c) :
     let wd := (World.init w h).run c ops
     (wd.trusted = true ∨ ¬ (wd.sw.ttyw = wd.sw.s.w ∧ wd.sw.ttyh = wd.sw.s.h)) → Displays c (wd.step c .show) :=
@@ -40,7 +48,7 @@ theorem show_faithful_partial (hrw : RwOk c.rw) (hct : c.cornerTrick = false) (w
 /-- **Sync is faithful from arbitrary terminal contents** (Layer A): no trust hypothesis — whatever happened to
 the display before (external corruption, unnoticed resizes), after Sync it shows the logical screen; it is trusted
 again and every StyleDefault cell is shown in the current screen style. -/
-theorem sync_faithful_partial (hrw : RwOk c.rw) (hct : c.cornerTrick = false) (w h : Int) (ops : List ScrOp)
+theorem sync_faithful_partial (hrw : RwOk c.rw) (hct : c.Plain) (w h : Int) (ops : List ScrOp)
     (hv : ∀ op ∈ ops, op.Valid c) :
     let wd := (World.init w h).run c ops
     Displays c (wd.step c .sync) ∧ (wd.step c .sync).trusted = true ∧
@@ -50,7 +58,7 @@ theorem sync_faithful_partial (hrw : RwOk c.rw) (hct : c.cornerTrick = false) (w
 /-- **A reported new size is honoured from arbitrary contents** (Layer A): after the window changed to w'×h' and
 the resize notification was processed, the display (whose contents the resize left arbitrary) shows the logical
 screen at the new size. -/
-theorem resize_faithful_partial (hrw : RwOk c.rw) (hct : c.cornerTrick = false) (w h : Int) (ops : List ScrOp)
+theorem resize_faithful_partial (hrw : RwOk c.rw) (hct : c.Plain) (w h : Int) (ops : List ScrOp)
     (hv : ∀ op ∈ ops, op.Valid c) (w' h' : Int) :
     let wd := (World.init w h).run c ops
     Displays c (wd.step c (.ttyResizeNotify w' h')) ∧ (wd.step c (.ttyResizeNotify w' h')).trusted = true ∧
@@ -58,7 +66,7 @@ theorem resize_faithful_partial (hrw : RwOk c.rw) (hct : c.cornerTrick = false) 
   (notify_step hrw hct (reach_inv hrw hct w h ops hv) w' h').2
 
 /-- The same when the notification is lost: the next Show notices the new size itself. -/
-theorem resize_noticed_by_show_partial (hrw : RwOk c.rw) (hct : c.cornerTrick = false) (w h : Int) (ops : List ScrOp)
+theorem resize_noticed_by_show_partial (hrw : RwOk c.rw) (hct : c.Plain) (w h : Int) (ops : List ScrOp)
     (hv : ∀ op ∈ ops, op.Valid c) (w' h' : Int)
     (hne : ¬ (w' = ((World.init w h).run c ops).sw.s.w ∧ h' = ((World.init w h).run c ops).sw.s.h)) :
     let wd := ((World.init w h).run c ops).step c (.ttyResizeQuiet w' h')
@@ -75,7 +83,7 @@ theorem resize_noticed_by_show_partial (hrw : RwOk c.rw) (hct : c.cornerTrick = 
 /-- Every reachable world satisfies the cross-Show invariant whenever it is trusted: clean unlocked cells show
 what they held when they were painted, continuation cells belong to dirty or locked cells, the terminal grid is
 well formed. (The invariant the three theorems above rest on; useful on its own between Shows.) -/
-theorem invariant_partial (hrw : RwOk c.rw) (hct : c.cornerTrick = false) (w h : Int) (ops : List ScrOp)
+theorem invariant_partial (hrw : RwOk c.rw) (hct : c.Plain) (w h : Int) (ops : List ScrOp)
     (hv : ∀ op ∈ ops, op.Valid c) :
     let wd := (World.init w h).run c ops
     wd.trusted = true → SyncInv c wd.d wd.sw.s wd.t :=
@@ -92,7 +100,10 @@ theorem trusted_kept (wd : World) (op : ScrOp) (ht : wd.trusted = true)
 
 def rwDemo : Rune → Int := fun r => if r = 0x4e16 then 2 else if r = 0 ∨ r = 0x301 then 0 else 1
 def cfgDemo : DrawCfg :=
-  { rw := rwDemo, payload := fun m comb => Utf8.encode m ++ comb.flatMap Utf8.encode, hasHide := true, cornerTrick := false }
+  { rw := rwDemo, payload := fun m comb => Utf8.encode m ++ comb.flatMap Utf8.encode, hasHide := true, cornerTrick := false,
+    guardLocked := false }   -- the pinned drawCell, whatever `currentGuardsLockedNeighbour` says
+
+theorem cfgDemo_plain : cfgDemo.Plain := ⟨rfl, rfl⟩
 
 theorem rwDemo_ok : RwOk rwDemo :=
   { zero := by decide, space := by decide,
